@@ -936,12 +936,14 @@ func (g *gen) evalCall(env *specEnv, e *SExpr) (Val, error) {
 		}
 		return boolVal(app("astlist", args[0].T)), nil
 	case "nodeInTree":
+		// a node of the parsed tree or a private copy of one (not a node built by the checker, not an astcast sentinel)
 		g.declareFun("private", []string{"Int"}, "Bool")
+		g.declTnode()
 		if args[0].Sort == "Iface" {
 			p := app("i_val", args[0].T)
-			return boolVal(and(not(eq(app("i_tag", args[0].T), "0")), not(eq(p, "0")), or(g.alive0Term(p), app("private", p)))), nil
+			return boolVal(and(not(eq(app("i_tag", args[0].T), "0")), not(eq(p, "0")), or(app("tnode", p), app("private", p)))), nil
 		}
-		return boolVal(and(not(eq(args[0].T, "0")), or(g.alive0Term(args[0].T), app("private", args[0].T)))), nil
+		return boolVal(and(not(eq(args[0].T, "0")), or(app("tnode", args[0].T), app("private", args[0].T)))), nil
 	case "cursorPrivate":
 		g.declareFun("cursorPrivate", []string{"Int"}, "Bool")
 		return boolVal(app("cursorPrivate", args[0].T)), nil
